@@ -10,8 +10,8 @@ namespace HLV
 
 /-- The system invariant: every thread's remaining code obeys the hold + rank discipline from
 its ghost state, and the ghost states are exactly what the table says. -/
-structure SysInv (rank : LockId → Nat) (N : Nat) (s : Sys) (H : Tid → HG) : Prop where
-  code : ∀ t, wp (HoldSpec 0 (some rank)) (s.thr t) (fun _ g => g.held = Held.empty) (fun _ _ => False) (H t)
+structure SysInv (ro : RankOpt) (N : Nat) (s : Sys) (H : Tid → HG) : Prop where
+  code : ∀ t, wp (HoldSpec 0 ro) (s.thr t) (fun _ g => g.held = Held.empty) (fun _ _ => False) (H t)
   alive : ∀ x, (s.env.locks x).killed = false
   excl : ∀ x t, (H t).held x .excl = if (s.env.locks x).writer = some t then 1 else 0
   shared : ∀ x t, (H t).held x .shared = (s.env.locks x).readers.count t
@@ -98,10 +98,10 @@ theorem blocked_acq_env (pol : Policy) (e : Env) (t : Tid) (m : Mode) (x : LockI
     · exact ⟨e, by simp [Env.step, hk, hg', hc], Or.inl rfl⟩
     · exact ⟨_, by simp [Env.step, hk, hg', hc], Or.inr ⟨rfl, hc, rfl⟩⟩
 
-variable {rank : LockId → Nat} {N : Nat}
+variable {ro : RankOpt} {rank : LockId → Nat} {N : Nat}
 
 /-- a thread registered as a waiting writer is sitting at that very blocking acquisition -/
-theorem SysInv.not_waiting {s : Sys} {H : Tid → HG} (hi : SysInv rank N s H) {t : Tid} {o : Op}
+theorem SysInv.not_waiting {s : Sys} {H : Tid → HG} (hi : SysInv ro N s H) {t : Tid} {o : Op}
     {k : Resp → Prog Unit Unit} (hc : s.thr t = .op o k) {y : LockId}
     (hy : t ∈ (s.env.locks y).waitW) : o = .acq .excl true y := by
   obtain ⟨k', hk'⟩ := hi.waiters y t hy
@@ -110,8 +110,8 @@ theorem SysInv.not_waiting {s : Sys} {H : Tid → HG} (hi : SysInv rank N s H) {
   rfl
 
 /-- **Preservation.** Every step of every thread, under either policy, keeps the invariant. -/
-theorem SysInv.step (pol : Policy) {s s' : Sys} {H : Tid → HG} (hi : SysInv rank N s H) (t : Tid)
-    (hs : s.step pol t = some s') : ∃ H', SysInv rank N s' H' := by
+theorem SysInv.step (pol : Policy) {s s' : Sys} {H : Tid → HG} (hi : SysInv ro N s H) (t : Tid)
+    (hs : s.step pol t = some s') : ∃ H', SysInv ro N s' H' := by
   unfold Sys.step at hs
   cases hc : s.thr t with
   | done a => rw [hc] at hs; cases hs
@@ -416,7 +416,7 @@ theorem SysInv.step (pol : Policy) {s s' : Sys} {H : Tid → HG} (hi : SysInv ra
       have hnl : (∀ m b x, o ≠ .acq m b x) ∧ (∀ m x, o ≠ .rel m x) ∧ (∀ x, o ≠ .kill x) :=
         ⟨fun m b x h => hlock (Or.inl ⟨m, b, x, h⟩), fun m x h => hlock (Or.inr (Or.inl ⟨m, x, h⟩)),
          fun x h => hlock (Or.inr (Or.inr ⟨x, h⟩))⟩
-      obtain ⟨r, e', ev, hstep, hsame, hadm⟩ := nonlock_step pol s.env t o (H t) (some rank) hnl hpre
+      obtain ⟨r, e', ev, hstep, hsame, hadm⟩ := nonlock_step pol s.env t o (H t) ro hnl hpre
       rw [hstep] at hs
       cases hs
       have hk' := hcont r hadm
@@ -454,8 +454,8 @@ theorem SysInv.step (pol : Policy) {s s' : Sys} {H : Tid → HG} (hi : SysInv ra
         simpa [hne] using hi.idle u hu
 
 /-- every reachable state satisfies the invariant -/
-theorem reachable_inv (pol : Policy) {init s : Sys} {H₀ : Tid → HG} (h0 : SysInv rank N init H₀)
-    (hr : Reachable pol init s) : ∃ H, SysInv rank N s H := by
+theorem reachable_inv (pol : Policy) {init s : Sys} {H₀ : Tid → HG} (h0 : SysInv ro N init H₀)
+    (hr : Reachable pol init s) : ∃ H, SysInv ro N s H := by
   induction hr with
   | init => exact ⟨H₀, h0⟩
   | step t _ hs ih =>
@@ -515,7 +515,7 @@ def tgtRank (rank : LockId → Nat) (s : Sys) (t : Tid) : Nat :=
 /-- **Progress (C01).** In a state satisfying the invariant, in which no thread has exhausted
 its retry fuel or died, if some thread is still running then some running thread is not
 waiting for a lock — for any number of threads and under either wake policy. -/
-theorem no_deadlock (pol : Policy) {s : Sys} {H : Tid → HG} (hi : SysInv rank N s H)
+theorem no_deadlock (pol : Policy) {s : Sys} {H : Tid → HG} (hi : SysInv (some rank) N s H)
     (hns : ∀ t, s.thr t ≠ .spin ∧ s.thr t ≠ .abort)
     (hrun : ∃ t, s.running t) : ∃ t, s.running t ∧ ¬ s.blocked pol t := by
   apply Classical.byContradiction
